@@ -5,7 +5,7 @@
 (* The harness runs a real recording with sqlite3's trace callback         *)
 (* installed on the recorder's connection and abstracts every statement    *)
 (* (including the implicit BEGIN and the COMMIT of `with connection:`) to  *)
-(*    [op |-> "CREATE"|"BEGIN"|"COMMIT"|"INSERT"|"UPDATE"|"OTHER",         *)
+(*    [op |-> "CREATE"|"BEGIN"|"COMMIT"|"ROLLBACK"|"INSERT"|"UPDATE",      *)
 (*     t  |-> object name, rt |-> case table named by a global row]        *)
 (* This module replays the stream through the statement operators of       *)
 (* CaseDB (same guards, same effects on <<durable, txn>>) and additionally *)
@@ -14,6 +14,11 @@
 (*     but its own global_iterations row, which follows it and names the   *)
 (*     same table; COMMIT only when case rows and global rows are paired;  *)
 (*   - metadata statements are in transactions without case rows;          *)
+(* A stream that breaks this discipline is REJECTED (verdict = the first   *)
+(* flaw), but it is still replayed to its end as long as SQLite itself     *)
+(* would have executed it (a DML statement outside a transaction is an     *)
+(* autocommit transaction of its own), so that the crash enumeration knows *)
+(* what is durable at every boundary of a faulty recorder as well.         *)
 (*   - at the end no transaction is open, the file opens (CanOpen) and     *)
 (*     list_cases() computed by the spec equals the reference list the     *)
 (*     real CaseReader returned (by table), one global row per case row.   *)
@@ -22,20 +27,24 @@
 (*   mark 0 no transaction open, 1 inside an open transaction,             *)
 (*        2 between a case row and its global row;                         *)
 (*   started  the first startup is complete (durable metadata is full);    *)
-(*   ncases   number of cases the spec says are durable.                   *)
+(*   ncases   number of cases the spec says are durable (global rows);     *)
+(*   nderivs  number of durable driver_derivatives rows;                   *)
+(*   atomic   case rows and global rows of the durable state are paired.   *)
 (***************************************************************************)
 EXTENDS CaseDB, Json, IOUtils
 
 Traces == JsonDeserialize(IOEnv.C18_TRACES)
 
-VARIABLES tid, l, verdict, nid, hist
-tvars == <<tid, l, verdict, nid, hist, vars>>
+VARIABLES tid, l, verdict, flaw, flawAt, nid, hist
+tvars == <<tid, l, verdict, flaw, flawAt, nid, hist, vars>>
 
 Frozen == UNCHANGED <<prog, full, pc, crashed, reader>>
 
 TInit == /\ tid \in 1..Len(Traces)
          /\ l = 1
-         /\ verdict = "ok"
+         /\ verdict = "ok"          \* "ok" while replaying; final verdict afterwards
+         /\ flaw = "ok"             \* the first deviation from the transaction discipline
+         /\ flawAt = 0              \* ... and the statement at which it occurs
          /\ nid = 0
          /\ hist = <<>>
          /\ prog = <<>> /\ full = <<>> /\ pc = 1
@@ -48,63 +57,94 @@ Ev == Traces[tid].ev[l]
 OnlyMeta(x) == x.cases = <<>> /\ x.glob = <<>> /\ x.derivs = <<>>
 Fresh(x) == OnlyMeta(x) /\ x.meta = "keep" /\ x.nmeta = 0 /\ x.tables = {}
 
-\* the verdict on the next statement: "ok" or the reason it does not fit
-Judge(e, d, x) ==
-    CASE e.op = "CREATE" -> IF CanCreate(d, x, e.t) /\ OnlyMeta(x) THEN "ok" ELSE "create-not-allowed-here"
-      [] e.op = "BEGIN" -> IF CanBegin(x) THEN "ok" ELSE "begin-inside-open-transaction"
-      [] e.op = "COMMIT" -> IF ~CanCommit(x) THEN "commit-without-transaction"
-                            ELSE IF Len(x.cases) # Len(x.glob) THEN "commit-between-case-row-and-global-row"
-                            ELSE "ok"
-      [] e.op = "INSERT" /\ e.t \in CaseTables ->
+IsDml(e) == e.op \in {"INSERT", "UPDATE"}
+Kind(e) == CASE e.op = "INSERT" /\ e.t \in CaseTables -> "case"
+             [] e.op = "INSERT" /\ e.t = "global_iterations" -> "global"
+             [] e.op = "INSERT" /\ e.t = "driver_derivatives" -> "deriv"
+             [] e.op = "INSERT" /\ e.t = "metadata" -> "stub"
+             [] e.op = "UPDATE" /\ e.t = "metadata" -> "update"
+             [] e.op = "INSERT" /\ e.t \in MetaRowTables -> "metarow"
+             [] OTHER -> "unknown"
+
+\* would SQLite execute the statement?  (x is the transaction the statement runs in: the open one, or a fresh
+\* autocommit transaction)
+Guard(e, d, x) ==
+    CASE e.op = "CREATE" -> CanCreate(d, x, e.t)
+      [] e.op = "BEGIN" -> CanBegin(x)
+      [] e.op = "COMMIT" -> CanCommit(x)
+      [] e.op = "ROLLBACK" -> CanRollback(x)
+      [] Kind(e) = "case" -> CanInsertCase(d, x, e.t)
+      [] Kind(e) = "global" -> e.rt \in CaseTables /\ CanInsertGlobal(d, x, e.rt) /\ Len(RowsOf(d, x, e.rt)) > 0
+      [] Kind(e) = "deriv" -> CanInsertDeriv(d, x)
+      [] Kind(e) = "stub" -> CanInsertMetaStub(d, x)
+      [] Kind(e) = "update" -> CanUpdateMeta(d, x)
+      [] Kind(e) = "metarow" -> CanInsertMetaRow(d, x, e.t)
+      [] OTHER -> FALSE
+
+Effect(e, d, x, id) ==
+    CASE Kind(e) = "case" -> DoInsertCase(x, e.t, id)
+      [] Kind(e) = "global" -> DoInsertGlobal(d, x, e.rt)
+      [] Kind(e) = "deriv" -> DoInsertDeriv(x, 0)
+      [] Kind(e) = "stub" -> DoInsertMetaStub(x)
+      [] Kind(e) = "update" -> DoUpdateMeta(d, x)
+      [] OTHER -> DoInsertMetaRow(x)
+
+\* the transaction discipline of CaseDB: "ok" or the reason the next statement does not fit (x = txn as it is)
+Flaw(e, d, x) ==
+    CASE e.op = "CREATE" -> IF OnlyMeta(x) THEN "ok" ELSE "create-inside-a-case-transaction"
+      [] e.op = "BEGIN" -> "ok"
+      [] e.op = "COMMIT" -> IF Len(x.cases) # Len(x.glob) THEN "commit-between-case-row-and-global-row" ELSE "ok"
+      [] e.op = "ROLLBACK" -> IF NoCaseRows(x) THEN "ok" ELSE "rollback-of-case-rows"
+      [] Kind(e) = "case" ->
             IF ~x.open THEN "case-row-outside-transaction"
             ELSE IF ~Fresh(x) THEN "case-row-in-transaction-holding-other-records"
-            ELSE IF CanInsertCase(d, x, e.t) THEN "ok" ELSE "case-table-missing"
-      [] e.op = "INSERT" /\ e.t = "global_iterations" ->
+            ELSE "ok"
+      [] Kind(e) = "global" ->
             IF ~x.open THEN "global-row-outside-transaction"
             ELSE IF ~(Len(x.cases) = 1 /\ x.glob = <<>>) THEN "global-row-not-after-its-case-row-in-the-same-transaction"
             ELSE IF x.cases[1][1] # e.rt THEN "global-row-names-another-table"
-            ELSE IF CanInsertGlobal(d, x, e.rt) THEN "ok" ELSE "global-table-missing"
-      [] e.op = "INSERT" /\ e.t = "driver_derivatives" ->
-            IF CanInsertDeriv(d, x) /\ Fresh(x) THEN "ok" ELSE "derivatives-row-not-in-its-own-transaction"
-      [] e.op = "INSERT" /\ e.t = "metadata" ->
-            IF CanInsertMetaStub(d, x) /\ OnlyMeta(x) THEN "ok" ELSE "metadata-row-not-allowed-here"
-      [] e.op = "UPDATE" /\ e.t = "metadata" ->
-            IF CanUpdateMeta(d, x) /\ OnlyMeta(x) /\ MetaOf(d, x) # "none" THEN "ok" ELSE "metadata-update-not-allowed-here"
-      [] e.op = "INSERT" /\ e.t \in MetaRowTables ->
-            IF CanInsertMetaRow(d, x, e.t) /\ OnlyMeta(x) THEN "ok" ELSE "metadata-row-not-allowed-here"
+            ELSE "ok"
+      [] Kind(e) = "deriv" -> IF x.open /\ Fresh(x) THEN "ok" ELSE "derivatives-row-not-in-its-own-transaction"
+      [] Kind(e) \in {"stub", "metarow"} -> IF x.open /\ OnlyMeta(x) THEN "ok" ELSE "metadata-row-not-in-a-metadata-transaction"
+      [] Kind(e) = "update" -> IF x.open /\ OnlyMeta(x) /\ MetaOf(d, x) # "none" THEN "ok"
+                               ELSE "metadata-update-not-in-a-metadata-transaction"
       [] OTHER -> "unknown-statement"
 
 Mark(x) == IF ~x.open THEN 0 ELSE IF Len(x.cases) > Len(x.glob) THEN 2 ELSE 1
-Obs == [mark |-> Mark(txn), started |-> started, ncases |-> Len(durable.glob)]
+Obs == [mark |-> Mark(txn), started |-> started, ncases |-> Len(durable.glob), nderivs |-> Len(durable.derivs),
+        atomic |-> OneToOne(durable)]
 
 Step ==
     /\ verdict = "ok"
     /\ l <= Len(Traces[tid].ev)
     /\ LET e == Ev
-           v == Judge(e, durable, txn)
-       IN /\ verdict' = v
-          /\ hist' = Append(hist, Obs)
-          /\ IF v # "ok" THEN UNCHANGED <<durable, txn, started, ncommit, nid>>
-             ELSE CASE e.op = "CREATE" -> /\ durable' = DoCreateD(durable, txn, e.t)
-                                          /\ txn' = DoCreateX(durable, txn, e.t)
-                                          /\ UNCHANGED <<started, ncommit, nid>>
-                    [] e.op = "BEGIN" -> txn' = DoBegin(txn) /\ UNCHANGED <<durable, started, ncommit, nid>>
-                    [] e.op = "COMMIT" -> /\ durable' = DoCommit(durable, txn)
-                                          /\ txn' = NoTxn
-                                          /\ started' = (started \/ durable'.meta = "full")
-                                          /\ ncommit' = ncommit + Len(txn.glob)
-                                          /\ UNCHANGED nid
-                    [] e.op = "INSERT" /\ e.t \in CaseTables ->
-                          /\ txn' = DoInsertCase(txn, e.t, nid + 1) /\ nid' = nid + 1
-                          /\ UNCHANGED <<durable, started, ncommit>>
-                    [] e.op = "INSERT" /\ e.t = "global_iterations" ->
-                          txn' = DoInsertGlobal(durable, txn, e.rt) /\ UNCHANGED <<durable, started, ncommit, nid>>
-                    [] e.op = "INSERT" /\ e.t = "driver_derivatives" ->
-                          txn' = DoInsertDeriv(txn, 0) /\ UNCHANGED <<durable, started, ncommit, nid>>
-                    [] e.op = "INSERT" /\ e.t = "metadata" ->
-                          txn' = DoInsertMetaStub(txn) /\ UNCHANGED <<durable, started, ncommit, nid>>
-                    [] e.op = "UPDATE" -> txn' = DoUpdateMeta(durable, txn) /\ UNCHANGED <<durable, started, ncommit, nid>>
-                    [] OTHER -> txn' = DoInsertMetaRow(txn) /\ UNCHANGED <<durable, started, ncommit, nid>>
+           auto == IsDml(e) /\ ~txn.open                 \* autocommit: the statement is a transaction of its own
+           x0 == IF auto THEN DoBegin(txn) ELSE txn
+       IN /\ hist' = Append(hist, Obs)
+          /\ flaw' = IF flaw = "ok" THEN Flaw(e, durable, txn) ELSE flaw
+          /\ flawAt' = IF flaw = "ok" /\ Flaw(e, durable, txn) # "ok" THEN l ELSE flawAt
+          /\ IF ~Guard(e, durable, x0)
+             THEN verdict' = "stuck-sqlite-would-raise" /\ UNCHANGED <<durable, txn, started, ncommit, nid>>
+             ELSE /\ UNCHANGED verdict
+                  /\ CASE e.op = "CREATE" -> /\ durable' = DoCreateD(durable, txn, e.t)
+                                             /\ txn' = DoCreateX(durable, txn, e.t)
+                                             /\ UNCHANGED <<started, ncommit, nid>>
+                       [] e.op = "BEGIN" -> txn' = DoBegin(txn) /\ UNCHANGED <<durable, started, ncommit, nid>>
+                       [] e.op = "COMMIT" -> /\ durable' = DoCommit(durable, txn)
+                                             /\ txn' = NoTxn
+                                             /\ started' = (started \/ durable'.meta = "full")
+                                             /\ ncommit' = ncommit + Len(txn.glob)
+                                             /\ UNCHANGED nid
+                       [] e.op = "ROLLBACK" -> txn' = NoTxn /\ UNCHANGED <<durable, started, ncommit, nid>>
+                       [] OTHER ->
+                            LET x1 == Effect(e, durable, x0, nid + 1)
+                            IN /\ nid' = IF Kind(e) = "case" THEN nid + 1 ELSE nid
+                               /\ IF auto
+                                  THEN /\ durable' = DoCommit(durable, x1)
+                                       /\ txn' = NoTxn
+                                       /\ started' = (started \/ durable'.meta = "full")
+                                       /\ ncommit' = ncommit + Len(x1.glob)
+                                  ELSE txn' = x1 /\ UNCHANGED <<durable, started, ncommit>>
     /\ l' = l + 1
     /\ UNCHANGED tid /\ Frozen
 
@@ -114,7 +154,8 @@ Final ==
     /\ l = Len(Traces[tid].ev) + 1
     /\ LET ref == Traces[tid].ref
            lst == ListCases(durable)
-       IN verdict' = IF txn.open THEN "transaction-left-open"
+       IN verdict' = IF flaw # "ok" THEN flaw
+                     ELSE IF txn.open THEN "transaction-left-open"
                      ELSE IF ~(CanOpen(durable) /\ CanList(durable)) THEN "file-would-not-open"
                      ELSE IF ~OneToOne(durable) THEN "case-rows-and-global-rows-not-one-to-one"
                      ELSE IF ~(Len(lst) = Len(ref) /\ \A i \in 1..Len(ref) : lst[i][1] = ref[i] /\ lst[i][2] = i)
@@ -122,19 +163,20 @@ Final ==
                      ELSE "accepted"
     /\ hist' = Append(hist, Obs)
     /\ l' = l + 1
-    /\ UNCHANGED <<tid, nid, durable, txn, started, ncommit>> /\ Frozen
+    /\ UNCHANGED <<tid, flaw, flawAt, nid, durable, txn, started, ncommit>> /\ Frozen
 
 TNext == Step \/ Final
 
-\* invariants over every prefix of every accepted stream
-TraceAtomicity == verdict = "ok" => OneToOne(durable)
+Clean == verdict \in {"ok", "accepted"} /\ flaw = "ok"
+\* invariants over every prefix of every stream that keeps the discipline
+TraceAtomicity == Clean => OneToOne(durable)
 \* once the first startup is complete the committed file always opens (the crash window's precondition)
-TraceStartedOpens == verdict = "ok" /\ started => CanOpen(durable) /\ CanList(durable)
+TraceStartedOpens == Clean /\ started => CanOpen(durable) /\ CanList(durable)
 \* the committed cases are always the first ncommit of the stream, in order
-TraceCommitted == verdict = "ok" /\ CanList(durable) =>
+TraceCommitted == Clean /\ CanList(durable) =>
                      /\ Len(durable.glob) = ncommit
                      /\ \A i \in 1..Len(durable.glob) : ListCases(durable)[i][2] = i
 
 Done == verdict # "ok"
-Export == Done => PrintT(<<"EXP", ToJson([tid |-> tid, l |-> l, v |-> verdict, hist |-> hist])>>)
+Export == Done => PrintT(<<"EXP", ToJson([tid |-> tid, l |-> l, v |-> verdict, at |-> flawAt, hist |-> hist])>>)
 =============================================================================
